@@ -50,7 +50,7 @@ class Transform2D(EventDispatcher):
     @rotation.setter
     def rotation(self, value):
         self._rotation = value % 360.
-        self.dispatch(ON_ROTATION_CHANGE_EVENT_NAME, value)
+        self.dispatch(ON_ROTATION_CHANGE_EVENT_NAME, self._rotation)
 
     @property
     def scale(self) -> dmath.Vec2:
